@@ -163,7 +163,7 @@ structure Attempt where
   obj : Nat               -- targeted object (ignored for authority guards)
   signer : Signer
   valid : Bool            -- the content is acceptable in the current state when sent by the privileged signer
-  newOwner : Option Nat   -- ownership transfer messages: the new owner
+  newOwners : List (Nat × Nat)  -- on success: (object, new owner) pairs (ownership / controller transfers)
 
 /-- does the signer pass the handler's guard? -/
 def passes (s : Owners) (a : Attempt) : Bool :=
@@ -181,12 +181,12 @@ def passes (s : Owners) (a : Attempt) : Bool :=
   | .none => true
 
 /-- one privileged-message attempt: (new owners, accepted?) -/
+def applyOwners (s : Owners) : List (Nat × Nat) → Owners
+  | [] => s
+  | (o, n) :: r => applyOwners (setOwner s o n) r
+
 def gstep (s : Owners) (a : Attempt) : Owners × Bool :=
-  if passes s a && a.valid then
-    match a.newOwner with
-    | some n => (setOwner s a.obj n, true)
-    | none => (s, true)
-  else (s, false)
+  if passes s a && a.valid then (applyOwners s a.newOwners, true) else (s, false)
 
 def grun (s : Owners) : List Attempt → Owners
   | [] => s
